@@ -184,3 +184,13 @@ claim("C12", IRJ,
       "symbolic state, registers absent from it, every symbolic memory entry, that every concrete write is covered, and the destination.",
       "TLC; valuations where accesses on different symbolic bases overlap are excluded (the property's proviso), decided by "
       "evaluating the recorded pointers; one memory destination per assign block", "DESIGN.md 4.3, 5/C12", "IRJudge")
+
+claim("C14", IRJ,
+      "For each of 15 architecture/mode machines, byte strings from a fixed stream and the encodings listed in the repository's "
+      "vector files are decoded and lifted one instruction at a time at several addresses; each produced block is exported and "
+      "TLC evaluates IRJudge.tla's TypeCheck: destinations are registers or memory, both sides have equal width, IRDst is assigned "
+      "exactly once, every identifier is a register the architecture declares (or a location), and the IR graph has an edge for "
+      "every location leaf of the destination's conditional tree. A lifter exception other than its 'unsupported' reports is a "
+      "violation (52 such instruction forms are recorded as known findings, identified by family:mnemonic:exception).",
+      "TLC; single-instruction lifting (Thumb IT prefixes excluded); the byte stream does not depend on VERIF_SEED; sh4 has no lifter",
+      "DESIGN.md 5/C14", "IRJudge")
